@@ -3,6 +3,8 @@
 # with it and passes without it) in a scratch worktree, then run the given checks against /repo with
 # the change applied (undone straight afterwards). Results go to <dir>/eval.txt.
 set -u
+R=${EVAL_REPO:-/repo}  # EVAL_REPO: a scratch worktree of /repo to evaluate in (then KV_REPO points the checks at it)
+export KV_REPO=$R
 export GOFLAGS=-mod=mod GOPROXY=off GOSUMDB=off GOTOOLCHAIN=local
 d="$1"; shift
 name=$(basename "$d")
@@ -21,12 +23,12 @@ echo "confirm: demo_without_patch_exit=$base suite_with_patch_exit=$suite demo_w
 git -C /repo worktree remove --force "$wt"
 rm -f /tmp/zz_demo_$name.go
 ids="$*"; [ -z "$ids" ] && ids="$prop"
-git -C /repo apply "$d/patch.diff" || { echo "apply to /repo failed" >> "$out"; exit 4; }
+git -C $R apply "$d/patch.diff" || { echo "apply to /repo failed" >> "$out"; exit 4; }
 for id in $ids; do
   KV_OUT=/tmp/kvout_$name timeout 1500 ./check $id quick > /tmp/seed_$name.$id.log 2>&1; rc=$?
   echo "check $id quick exit=$rc: $(grep -c '^VIOLATION' /tmp/seed_$name.$id.log) violation line(s); $(grep -m2 -A1 '^VIOLATION' /tmp/seed_$name.$id.log | grep -v '^VIOLATION' | head -2 | tr '\n' ' ' | cut -c1-300)" >> "$out"
   grep -m3 "INCONCLUSIVE" /tmp/seed_$name.$id.log | cut -c1-300 >> "$out"
 done
-git -C /repo checkout -- .
+git -C $R checkout -- .
 rm -rf /tmp/kvout_$name
 cat "$out"
